@@ -25,6 +25,12 @@ func init() {
 }
 
 func runC02(c *eng.Ctx) {
+	// ---- R6 integer / float histogram siblings stay in step ----
+	c.SiblingsEqual("R6", "tsdb:memSeries.appendableHistogram", "tsdb:memSeries.appendableFloatHistogram", sibRenames, nil)
+	c.SiblingsEqual("R6", "tsdb:headAppenderBase.commitHistograms", "tsdb:headAppenderBase.commitFloatHistograms", sibRenames, []eng.SiblingDiff{
+		{A: "ok, chunkCreated, mmapRefs = series.insert(s.ST, s.T, 0, s.H, nil, acc.appendChunkOpts, acc.oooCapMax, a.head.logger)",
+			B: "ok, chunkCreated, mmapRefs = series.insert(s.ST, s.T, 0, nil, s.H, acc.appendChunkOpts, acc.oooCapMax, a.head.logger)", Why: "the histogram goes into the integer resp. the float parameter of insert"},
+	})
 	p := c.P
 	// ---- R1 sibling decision tables ----
 	normCond := func(s string) string {
